@@ -78,6 +78,13 @@ CHECKS['C16'] = {
     'technique': 'TLA+ exact envelope vs mechanism + TLC enumeration + state replay; TLC-validated observation events',
 }
 
+CHECKS['C01'] = {
+    'text': 'Periodogram.tla (on Correlation.tla): the periodogram of windowed data y=x*w in the lag domain (biased autocorrelation of y), exact for every NFFT; TLC checks lag-domain = direct DFT, Parseval and real symmetry on the 4-point grid for every small y. Each state is replayed with x=y/w for the window names (all 29 in the thorough tier, a rotating subset per state in the quick tier) into speriodogram (1-D and 3-column 2-D), the Periodogram class and, rectangular window, CORRELOGRAMPSD with both correlation back ends (Wiener-Khinchin) at even/odd/prime/power-of-two NFFT >= N. Float data up to N=512: ObsC01.tla (Parseval, bin counts, class = function, real bins = first half, Wiener-Khinchin).',
+    'design_ref': 'DESIGN.md 3/C01',
+    'note': 'Exact universe: real N<=4/5, complex N<=3/4 (Gaussian-integer windowed data); windows whose samples are not finite are skipped here (C20); the harness evaluates roots of unity. NFFT < N is outside the statement.',
+    'technique': 'TLA+ exact lag-domain definition + TLC enumeration + state replay with x=y/w; TLC-validated observation events',
+}
+
 NOT_APPLICABLE = {
     'C18': 'Slepian tapers: irrational eigenproblem solved in C; no exact finite model exists and quantised re-verification would make Python the oracle (a different technique). DESIGN.md section 4.',
 }
